@@ -111,24 +111,11 @@ def _run(ctx, item, fail_at):
     fut.set_result(res)
 
 
-def run_scheduler(root, n, workers, steps, order_script, outcomes, fail_at=(), seed=0, restart_steps=None, watchdog=90.0):
-    """One run of the real scheduler().  outcomes: function(md) -> (acc, rows) for the scripted move.
-    Returns (events, info)."""
-    from infretis import asyncrunner, scheduler as isched, setup as isetup
-    from infretis.core import tis
-    info = {"error": None, "raised": None, "hung": False, "nexec": {}, "ndeliv": 0, "nsubmit": 0, "threads_after": 0}
-    ctx = Ctx()
-    seg = sysdrv.Segment(root, inp="restart.toml" if restart_steps else "infretis.toml")
-    saved = {}
-
-    def patch(obj, name, new):
-        saved[(obj, name)] = getattr(obj, name)
-        setattr(obj, name, new)
-
-    holder = {}
-
+def recording_setup_internal(seg, info, orig):
+    """setup_internal() that adopts the state into `seg` and records every prep_md_items / treat_output / loop
+    of the scheduler as Pick / Complete / Finish events (plus Init or Restart)."""
     def setup_internal(config):
-        md_items, state = saved[(isetup, "setup_internal")](config)
+        md_items, state = orig(config)
         seg.state, seg.md_items, seg.N = state, md_items, state.n - 1
         sysdrv._DRAWS["state"] = state
         seg.restarted = "restarted_from" in config["current"]
@@ -152,7 +139,7 @@ def run_scheduler(root, n, workers, steps, order_script, outcomes, fail_at=(), s
             return out
 
         def treat(md):
-            info["ndeliv"] += 1
+            info["ndeliv"] = info.get("ndeliv", 0) + 1
             snap = seg.pre_complete(md)
             out = orig_treat(md)
             seg.post_complete(snap, out)
@@ -165,6 +152,26 @@ def run_scheduler(root, n, workers, steps, order_script, outcomes, fail_at=(), s
             return go
         state.prep_md_items, state.treat_output, state.loop = prep, treat, loop
         return md_items, state
+    return setup_internal
+
+
+def run_scheduler(root, n, workers, steps, order_script, outcomes, fail_at=(), seed=0, restart_steps=None, watchdog=90.0):
+    """One run of the real scheduler().  outcomes: function(md) -> (acc, rows) for the scripted move.
+    Returns (events, info)."""
+    from infretis import asyncrunner, scheduler as isched, setup as isetup
+    from infretis.core import tis
+    info = {"error": None, "raised": None, "hung": False, "nexec": {}, "ndeliv": 0, "nsubmit": 0, "threads_after": 0}
+    ctx = Ctx()
+    seg = sysdrv.Segment(root, inp="restart.toml" if restart_steps else "infretis.toml")
+    saved = {}
+
+    def patch(obj, name, new):
+        saved[(obj, name)] = getattr(obj, name)
+        setattr(obj, name, new)
+
+    holder = {}
+
+    setup_internal = recording_setup_internal(seg, info, isetup.setup_internal)
 
     def setup_runner(state):
         runner, futures = saved[(isetup, "setup_runner")](state)
@@ -258,6 +265,7 @@ def run_scheduler(root, n, workers, steps, order_script, outcomes, fail_at=(), s
         time.sleep(0.05)
         info["threads_after"] = threading.active_count() - nthreads0
         info["nexec"] = dict(ctx.nexec)
+        info["refused"] = bool(result.get("none"))
         if "runner" in holder:
             r = holder["runner"]
             info["queue_left"] = r._queue.qsize()
